@@ -30,6 +30,8 @@ type ReplayRec struct {
 	Params     map[string]int  `json:"params"`
 	Inputs     []sx.NondetRec  `json:"inputs"`
 	Observed   []sx.ObsRec     `json:"observed,omitempty"`
+	Schedule   []int           `json:"schedule,omitempty"`
+	Mode       string          `json:"mode,omitempty"`
 	Expect     string          `json:"expect"`
 	Msg        string          `json:"msg,omitempty"`
 	Pos        string          `json:"pos,omitempty"`
@@ -135,6 +137,9 @@ func runNative(reg *Registry, files []string, pp *packages.Package) (map[string]
 	cmd.Stdout = &buf
 	cmd.Stderr = &buf
 	runErr := cmd.Run()
+	if os.Getenv("GOSMT_NATIVE_LOG") != "" {
+		os.WriteFile(os.Getenv("GOSMT_NATIVE_LOG"), buf.Bytes(), 0o644)
+	}
 	sc := bufio.NewScanner(&buf)
 	sc.Buffer(make([]byte, 1<<20), 1<<24)
 	var all []string
@@ -382,11 +387,12 @@ func cmdCheck(args []string) int {
 				continue
 			}
 			violRecs = append(violRecs, ReplayRec{Property: *prop, Obligation: v.Obligation, Harness: r.name, Func: r.spec.Func,
-				Tier: *tier, Params: paramsFor(r.spec, *tier), Inputs: v.Inputs, Expect: "fail", Msg: v.Msg, Pos: v.Pos, SrcHash: ld.SrcHash})
+				Tier: *tier, Params: paramsFor(r.spec, *tier), Inputs: v.Inputs, Expect: "fail", Msg: v.Msg, Pos: v.Pos, SrcHash: ld.SrcHash,
+				Schedule: v.Schedule, Mode: r.spec.Mode})
 		}
 		for _, cr := range res.Concordance {
 			concRecs = append(concRecs, ReplayRec{Property: *prop, Obligation: "concordance", Harness: r.name, Func: r.spec.Func,
-				Tier: *tier, Params: paramsFor(r.spec, *tier), Inputs: cr.Inputs, Observed: cr.Observed, Expect: "pass"})
+				Tier: *tier, Params: paramsFor(r.spec, *tier), Inputs: cr.Inputs, Observed: cr.Observed, Expect: "pass", Schedule: cr.Schedule, Mode: r.spec.Mode})
 		}
 	}
 
